@@ -15,7 +15,7 @@ ERR_TIMEOUT = 98
 ERR_UNCAUGHT = 99
 
 
-class _Timeout(Exception):
+class _Timeout(BaseException):   # not an Exception: property modules catch Exception around API calls
     pass
 
 
@@ -33,8 +33,15 @@ def main():
     signal.signal(signal.SIGALRM, _alarm)
     out = []
     notes = []
+    timeouts = 0
     for i, case in enumerate(cases):
         sink = io.StringIO()
+        if timeouts >= 3:
+            # a tree that hangs on case after case: do not spend len(cases) x timeout on it;
+            # the remaining cases are reported as timed out (a failure like any other)
+            out.append([-1, ERR_TIMEOUT])
+            notes.append([i, "not run: 3 cases of this shard already timed out"])
+            continue
         try:
             signal.alarm(per_case)
             with contextlib.redirect_stdout(sink):
@@ -43,6 +50,7 @@ def main():
         except _Timeout:
             obs = [-1, ERR_TIMEOUT]
             notes.append([i, "timeout"])
+            timeouts += 1
         except BaseException as e:  # incl. SystemExit from the YAML loaders
             signal.alarm(0)
             obs = [-1, ERR_UNCAUGHT]
